@@ -66,6 +66,10 @@ pub enum Request {
         /// valid requests following the failing one in the batch: must NOT be applied ("stops at the first error")
         #[serde(default)]
         batch_after: Vec<Base>,
+        /// how the request reaches the store: 0 annotate / annotate_from_iter, 1 annotate_from_file (STAM JSON list of
+        /// annotations), 2 an ADD query through query_mut (only for requests STAMQL can express; falls back to 0)
+        #[serde(default)]
+        via: u8,
     },
     Other(Other),
 }
@@ -272,6 +276,201 @@ fn inject(
     }
 }
 
+
+type Parts = (Option<String>, Option<SelectorBuilder<'static>>, Vec<AnnotationDataBuilder<'static>>);
+
+fn bi_string<T: Storable>(b: &BuildItem<'_, T>, prefix: &str, lookup: &dyn Fn(T::HandleType) -> Option<Option<String>>) -> Option<String>
+where
+    T::HandleType: Handle,
+{
+    match b {
+        BuildItem::Id(s) => Some(s.clone()),
+        BuildItem::IdRef(s) => Some(s.to_string()),
+        BuildItem::Handle(h) => match lookup(*h) {
+            Some(Some(id)) => Some(id),
+            // an item without public id cannot be named in a document (temporary ids are C03's business): the
+            // request then takes the direct route
+            Some(None) => {
+                let _ = prefix;
+                None
+            }
+            None => None,
+        },
+        _ => None,
+    }
+}
+
+fn res_id(store: &AnnotationStore, b: &BuildItem<'_, TextResource>) -> Option<String> {
+    bi_string(b, "!R", &|h| store.resource(h).map(|r| r.id().map(|s| s.to_string())))
+}
+fn ann_id(store: &AnnotationStore, b: &BuildItem<'_, Annotation>) -> Option<String> {
+    bi_string(b, "!A", &|h| store.annotation(h).map(|r| r.id().map(|s| s.to_string())))
+}
+fn set_id(store: &AnnotationStore, b: &BuildItem<'_, AnnotationDataSet>) -> Option<String> {
+    bi_string(b, "!S", &|h| store.dataset(h).map(|r| r.id().map(|s| s.to_string())))
+}
+fn set_handle(store: &AnnotationStore, b: &BuildItem<'_, AnnotationDataSet>) -> Option<AnnotationDataSetHandle> {
+    match b {
+        BuildItem::Handle(h) => Some(*h),
+        BuildItem::Id(s) => store.dataset(s.as_str()).map(|d| d.handle()),
+        BuildItem::IdRef(s) => store.dataset(*s).map(|d| d.handle()),
+        _ => None,
+    }
+}
+fn key_id(store: &AnnotationStore, set: &BuildItem<'_, AnnotationDataSet>, b: &BuildItem<'_, DataKey>) -> Option<String> {
+    let sh = set_handle(store, set);
+    bi_string(b, "!K", &|h| {
+        let ds = store.dataset(sh?)?;
+        let k = ds.key(h)?;
+        Some(k.id().map(|s| s.to_string()))
+    })
+}
+fn data_id(store: &AnnotationStore, set: &BuildItem<'_, AnnotationDataSet>, b: &BuildItem<'_, AnnotationData>) -> Option<String> {
+    let sh = set_handle(store, set);
+    bi_string(b, "!D", &|h| {
+        let ds = store.dataset(sh?)?;
+        let d = ds.annotationdata(h)?;
+        Some(d.id().map(|s| s.to_string()))
+    })
+}
+
+/// STAM JSON of a selector builder; None if a referent cannot be named in a document
+fn sel_json(store: &AnnotationStore, t: &SelectorBuilder<'static>) -> Option<serde_json::Value> {
+    use serde_json::json;
+    Some(match t {
+        SelectorBuilder::ResourceSelector(r) => json!({"@type": "ResourceSelector", "resource": res_id(store, r)?}),
+        SelectorBuilder::TextSelector(r, o) => json!({"@type": "TextSelector", "resource": res_id(store, r)?, "offset": serde_json::to_value(o).ok()?}),
+        SelectorBuilder::AnnotationSelector(a, Some(o)) => json!({"@type": "AnnotationSelector", "annotation": ann_id(store, a)?, "offset": serde_json::to_value(o).ok()?}),
+        SelectorBuilder::AnnotationSelector(a, None) => json!({"@type": "AnnotationSelector", "annotation": ann_id(store, a)?}),
+        SelectorBuilder::DataSetSelector(s) => json!({"@type": "DataSetSelector", "annotationset": set_id(store, s)?}),
+        SelectorBuilder::DataKeySelector(s, k) => json!({"@type": "DataKeySelector", "annotationset": set_id(store, s)?, "key": key_id(store, s, k)?}),
+        SelectorBuilder::AnnotationDataSelector(s, d) => json!({"@type": "AnnotationDataSelector", "annotationset": set_id(store, s)?, "data": data_id(store, s, d)?}),
+        SelectorBuilder::MultiSelector(v) => json!({"@type": "MultiSelector", "selectors": v.iter().map(|x| sel_json(store, x)).collect::<Option<Vec<_>>>()?}),
+        SelectorBuilder::CompositeSelector(v) => json!({"@type": "CompositeSelector", "selectors": v.iter().map(|x| sel_json(store, x)).collect::<Option<Vec<_>>>()?}),
+        SelectorBuilder::DirectionalSelector(v) => json!({"@type": "DirectionalSelector", "selectors": v.iter().map(|x| sel_json(store, x)).collect::<Option<Vec<_>>>()?}),
+    })
+}
+
+/// STAM JSON of an annotation request (as `annotate_from_file` reads it); None if it cannot be written as a document
+/// (a request without target cannot: the document format requires the member)
+fn parts_json(store: &AnnotationStore, parts: &Parts) -> Option<serde_json::Value> {
+    let mut o = serde_json::Map::new();
+    o.insert("@type".into(), "Annotation".into());
+    if let Some(id) = &parts.0 {
+        o.insert("@id".into(), id.clone().into());
+    }
+    o.insert("target".into(), sel_json(store, parts.1.as_ref()?)?);
+    let mut data = vec![];
+    for d in &parts.2 {
+        let mut dj = serde_json::Map::new();
+        dj.insert("@type".into(), "AnnotationData".into());
+        let setb = d.dataset().clone();
+        match d.id().clone() {
+            BuildItem::None => {}
+            other => {
+                dj.insert("@id".into(), data_id(store, &setb, &other)?.into());
+            }
+        }
+        match &setb {
+            BuildItem::None => {}
+            other => {
+                dj.insert("set".into(), set_id(store, other)?.into());
+            }
+        }
+        match d.key().clone() {
+            BuildItem::None => {}
+            other => {
+                dj.insert("key".into(), key_id(store, &setb, &other)?.into());
+                dj.insert("value".into(), serde_json::to_value(d.value()).ok()?);
+            }
+        }
+        if matches!(d.key(), BuildItem::None) && !matches!(d.value(), DataValue::Null) {
+            // a value without key (one of the injected mistakes) is still written
+            dj.insert("value".into(), serde_json::to_value(d.value()).ok()?);
+        }
+        data.push(serde_json::Value::Object(dj));
+    }
+    o.insert("data".into(), serde_json::Value::Array(data));
+    Some(serde_json::Value::Object(o))
+}
+
+fn stamql_string(s: &str) -> Option<String> {
+    // keep to strings whose quoting in STAMQL is beyond doubt
+    if s.chars().all(|c| c.is_ascii_alphanumeric() || "-_.:/#@!".contains(c)) {
+        Some(format!("\"{}\"", s))
+    } else {
+        None
+    }
+}
+
+/// the request as an ADD query, for the request shapes STAMQL can express: a single resource / annotation (with or
+/// without relative offset) / text target and new data given by set, key and a string, integer or boolean value
+fn parts_query(store: &AnnotationStore, parts: &Parts) -> Option<String> {
+    let mut q = String::from("ADD ANNOTATION ?new WITH ");
+    if let Some(id) = &parts.0 {
+        q.push_str(&format!("ID {}; ", stamql_string(id)?));
+    }
+    for d in &parts.2 {
+        if !matches!(d.id(), BuildItem::None) {
+            return None;
+        }
+        let setb = d.dataset().clone();
+        let set = set_id(store, &setb)?;
+        if set.starts_with('!') {
+            return None;
+        }
+        let key = match d.key() {
+            BuildItem::Id(s) => s.clone(),
+            _ => return None,
+        };
+        let value = match d.value() {
+            DataValue::String(s) => stamql_string(s)?,
+            DataValue::Int(i) => format!("{}", i),
+            DataValue::Bool(true) => "true".to_string(),
+            DataValue::Bool(false) => "false".to_string(),
+            _ => return None,
+        };
+        q.push_str(&format!("DATA {} {} {}; ", stamql_string(&set)?, stamql_string(&key)?, value));
+    }
+    let plain = |o: &Offset| -> Option<String> {
+        let c = |c: &Cursor| match c {
+            Cursor::BeginAligned(v) => format!("{}", v),
+            Cursor::EndAligned(0) => "-0".to_string(),
+            Cursor::EndAligned(v) => format!("{}", v),
+        };
+        Some(format!("OFFSET {} {}", c(&o.begin), c(&o.end)))
+    };
+    match parts.1.as_ref()? {
+        SelectorBuilder::ResourceSelector(r) => {
+            let rid = res_id(store, r)?;
+            if rid.starts_with('!') {
+                return None;
+            }
+            q.push_str(&format!("TARGET ?t; {{ SELECT RESOURCE ?t WHERE ID {}; }}", stamql_string(&rid)?));
+        }
+        SelectorBuilder::AnnotationSelector(a, o) => {
+            let aid = ann_id(store, a)?;
+            if aid.starts_with('!') {
+                return None;
+            }
+            match o {
+                Some(o) => q.push_str(&format!("TARGET ?t {}; ", plain(o)?)),
+                None => q.push_str("TARGET ?t; "),
+            }
+            q.push_str(&format!("{{ SELECT ANNOTATION ?t WHERE ID {}; }}", stamql_string(&aid)?));
+        }
+        SelectorBuilder::TextSelector(r, o) => {
+            let rid = res_id(store, r)?;
+            if rid.starts_with('!') {
+                return None;
+            }
+            q.push_str(&format!("TARGET ?t; {{ SELECT TEXT ?t WHERE RESOURCE {} {}; }}", stamql_string(&rid)?, plain(o)?));
+        }
+        _ => return None,
+    }
+    Some(q)
+}
+
 fn assemble(id: &Option<String>, target: &Option<SelectorBuilder<'static>>, data: &[AnnotationDataBuilder<'static>]) -> AnnotationBuilder<'static> {
     let mut b = AnnotationBuilder::new();
     if let Some(t) = target {
@@ -341,7 +540,7 @@ impl Property for C14 {
         "C14"
     }
     fn rule(&self) -> String {
-        "case = valid C01 history + a valid request (annotate with any selector kind and 0-3 data; or add_resource / add_dataset / insert_data) into which one mistake is injected (unknown resource/annotation/dataset/key/data at any leaf, out-of-range / inverted / before-start offset absolute or relative, invalid datum at any position of the data list, duplicate annotation / resource / dataset id, nested complex selector, missing target), optionally as the last element of an annotate_from_iter batch after 0-2 valid ones. Oracle: the call returns Err (Ok => case skipped, counted); the complete observation (all lookups of C01, all text selections of every resource, datasets/keys/data) and the raw index/id-map dump equal those of a twin store that replayed the same history (and the valid batch prefix) but never saw the failing request; then the corrected request is applied to both and the observations must again be equal. Non-trivial = the invalid part comes after at least one valid part in build order (invalid datum after a valid target, 2nd leaf invalid, duplicate id with target/data, batch position > 0); distinct = distinct case JSON.".into()
+        "case = valid C01 history + a valid request (annotate with any selector kind and 0-3 data; or add_resource / add_dataset / insert_data) into which one mistake is injected (unknown resource/annotation/dataset/key/data at any leaf, out-of-range / inverted / before-start offset absolute or relative, invalid datum at any position of the data list, duplicate annotation / resource / dataset id, nested complex selector, missing target), optionally as an element of an annotate_from_iter batch after 0-2 valid ones (and before 0-2 valid ones that must not be applied); the request reaches the store through annotate / annotate_from_iter, through annotate_from_file (the same requests written as a STAM JSON list of annotations; only when every referent has a public id) or, for the shapes STAMQL can express, as an ADD query through query_mut. Oracle: the call returns Err (Ok => case skipped, counted); the complete observation (all lookups of C01, all text selections of every resource, datasets/keys/data) and the raw index/id-map dump equal those of a twin store that replayed the same history (and the valid batch prefix) but never saw the failing request; then the corrected request is applied to both and the observations must again be equal. Non-trivial = the invalid part comes after at least one valid part in build order (invalid datum after a valid target, 2nd leaf invalid, duplicate id with target/data, batch position > 0); distinct = distinct case JSON.".into()
     }
     fn assumptions(&self) -> Vec<String> {
         vec![
@@ -350,7 +549,7 @@ impl Property for C14 {
         ]
     }
     fn cases(&self, tier: Tier) -> u64 {
-        tier.pick(600_000, 8_000_000)
+        tier.pick(300_000, 6_000_000)
     }
     fn strategy(&self, tier: Tier) -> BoxedStrategy<Case> {
         let cfg = HistCfg {
@@ -367,12 +566,14 @@ impl Property for C14 {
             proptest::collection::vec(base_strategy(), 0..=2),
             proptest::collection::vec(base_strategy(), 0..=2),
             proptest::bool::weighted(0.35),
+            prop_oneof![6 => Just(0u8), 2 => Just(1u8), 2 => Just(2u8)],
         )
-            .prop_map(|(base, mistake, before, after, batch)| Request::Annotate {
+            .prop_map(|(base, mistake, before, after, batch, via)| Request::Annotate {
                 base,
                 mistake,
                 batch_before: if batch { before } else { vec![] },
                 batch_after: if batch { after } else { vec![] },
+                via,
             });
         let dspec = (proptest::bool::weighted(0.4), 0u8..6, val_strategy(false)).prop_map(|(with_id, key, val)| DSpec { with_id, key, val });
         let other = prop_oneof![
@@ -413,11 +614,11 @@ impl Property for C14 {
         let mut corrected: Option<(AnnotationBuilder<'static>, AnnotationBuilder<'static>)> = None;
         let result: Result<Result<(), String>, PanicInfo>;
         match &case.req {
-            Request::Annotate { base, mistake, batch_before, batch_after } => {
+            Request::Annotate { base, mistake, batch_before, batch_after, via } => {
                 // valid batch prefix: applied to the twin directly, to the store through the batch call
-                let mut batch: Vec<AnnotationBuilder<'static>> = vec![];
+                let mut batch: Vec<Parts> = vec![];
                 for b in batch_before {
-                    let Some((builder, next, _)) = m.prepare_annotate(b.with_id, 0, b.by_handle, &b.target, &b.data) else { continue };
+                    let Some((bid, btb, bdbs, next, _)) = m.prepare_annotate_parts(b.with_id, 0, b.by_handle, &b.target, &b.data) else { continue };
                     // the twin gets an identical request
                     let Some((tb, tnext, _)) = twin.prepare_annotate(b.with_id, 0, b.by_handle, &b.target, &b.data) else { continue };
                     m.model = next;
@@ -429,7 +630,7 @@ impl Property for C14 {
                             return out;
                         }
                     }
-                    batch.push(builder);
+                    batch.push((bid, Some(btb), bdbs));
                 }
                 // a base request whose referents do not exist in this history falls back to a plain text selector
                 let fallback = SelSpec::Text { res: 0, off: OffSpec { b: 9000, e: 30000, b_end: false, e_end: false } };
@@ -477,27 +678,58 @@ impl Property for C14 {
                     Mistake::Nested { .. } => class.contains("|later"),
                     Mistake::NoTarget => false,
                 } || !batch.is_empty();
-                let bad = assemble(&id, &target, &dbs);
+                let bad: Parts = (id.clone(), target.as_ref().map(clone_sel), dbs.clone());
                 let n_before = batch.len();
                 // valid requests placed after the failing one (built against the current model; never applied to the twin)
-                let mut after_builders: Vec<AnnotationBuilder<'static>> = vec![];
+                let mut after: Vec<Parts> = vec![];
                 for b in batch_after {
-                    if let Some((builder, _next, _)) = m.prepare_annotate(b.with_id, 0, b.by_handle, &b.target, &b.data) {
-                        after_builders.push(builder);
+                    if let Some((aid, atb, adbs, _next, _)) = m.prepare_annotate_parts(b.with_id, 0, b.by_handle, &b.target, &b.data) {
+                        after.push((aid, Some(atb), adbs));
                     }
                 }
-                if batch.is_empty() && after_builders.is_empty() {
+                let is_batch = !(batch.is_empty() && after.is_empty());
+                if !after.is_empty() {
+                    out.label("batch_with_tail");
+                    out.nontrivial = true;
+                }
+                let mut all: Vec<Parts> = batch;
+                all.push(bad);
+                all.extend(after);
+                // the route the request takes into the store
+                let doc: Option<String> = if *via == 1 {
+                    all.iter().map(|p| parts_json(&m.store, p)).collect::<Option<Vec<_>>>().map(|v| serde_json::Value::Array(v).to_string())
+                } else {
+                    None
+                };
+                let querytext: Option<String> = if *via == 2 && !is_batch { parts_query(&m.store, &all[0]) } else { None };
+                if let Some(doc) = doc {
+                    out.label("via.annotate_from_file");
+                    out.label(if is_batch { "batch" } else { "single" });
+                    let dir = crate::props::c05::TempDir::new("c14");
+                    let path = dir.path("annotations.json");
+                    if std::fs::write(&path, doc).is_err() {
+                        out.skip("scratch file could not be written");
+                        return out;
+                    }
+                    result = catch(|| m.store.annotate_from_file(&path).map(|_| ()).map_err(|e| format!("{}", e)));
+                } else if let Some(qs) = querytext {
+                    out.label("via.query_mut");
+                    let store = &mut m.store;
+                    result = catch(move || {
+                        let (q, _) = Query::parse(&qs).map_err(|e| format!("{}", e))?;
+                        // an ADD whose sub-query selects nothing adds nothing and returns Ok: no failed mutation (skipped below)
+                        let _rows = store.query_mut(q).map_err(|e| format!("{}", e))?.count();
+                        Ok(())
+                    });
+                } else if !is_batch {
                     out.label("direct");
-                    result = catch(|| m.store.annotate(bad).map(|_| ()).map_err(|e| format!("{}", e)));
+                    let (i, t, d) = &all[0];
+                    let b = assemble(i, t, d);
+                    result = catch(|| m.store.annotate(b).map(|_| ()).map_err(|e| format!("{}", e)));
                 } else {
                     out.label("batch");
-                    if !after_builders.is_empty() {
-                        out.label("batch_with_tail");
-                        out.nontrivial = true;
-                    }
-                    batch.push(bad);
-                    batch.extend(after_builders);
-                    result = catch(|| m.store.annotate_from_iter(batch).map(|_| ()).map_err(|e| format!("{}", e)));
+                    let builders: Vec<AnnotationBuilder<'static>> = all.iter().map(|(i, t, d)| assemble(i, t, d)).collect();
+                    result = catch(|| m.store.annotate_from_iter(builders).map(|_| ()).map_err(|e| format!("{}", e)));
                 }
                 let _ = n_before;
                 corrected = Some((assemble(&good_id, &good_target, &good_data), assemble(&tid, &Some(ttb), &tdbs)));
